@@ -1071,6 +1071,11 @@ def _is_big_endian_fold(ex, f: Term, st: State, node) -> bool:
 
 def call_ext(ex, name: str, args, kwargs, st: State, node) -> Term:
     A = args
+    hooks_ = getattr(ex, "ext_hooks", None)
+    if hooks_ and name in hooks_:
+        r_ = hooks_[name](ex, args, kwargs, st, node)
+        if r_ is not None:
+            return r_
     if name in ("copy.copy",) and len(A) == 1:
         o = ex.obj(st, A[0])
         if o is not None and o.kind in ("list", "dict", "bytearray", "set"):
